@@ -283,6 +283,8 @@ def _tags(content, layout, model):
         t.append("no_trailing_magic")
     if model["total_summary"] is None:
         t.append("no_total_summary")
+        if layout["version"] >= 2:
+            t.append("no_total_summary_in_version_2_or_later")
     if f["index_last"]:
         t.append("main_index_last")
     return t
